@@ -32,6 +32,8 @@
 (*   "nomax"     MaxStep is not passed to Compile                          *)
 (*   "rdlast"    the LAST return-directly call is recorded, not the first  *)
 (*   "modleak"   the modifier's output is stored back into the state       *)
+(*   "nocopy"    the modifier is handed the live history slice (no copy),  *)
+(*               so an in-place modifier rewrites the stored history       *)
 (***************************************************************************)
 EXTENDS ReActRule
 
@@ -40,6 +42,7 @@ CONSTANTS MaxMsgs,      \* script length 1..4
           MaxTools,     \* 1..3
           MaxSteps,     \* set of MaxStep settings, 0 = default
           RdMode,       \* "none" | "all": which return-directly sets are enumerated
+          Inplace,      \* subset of BOOLEAN: a MessageModifier that edits the slice it is given in place (never together with the persona one)
           Modifiers,    \* subset of BOOLEAN
           Styles,       \* subset of StyleNames: checker x chunking of the Stream runs
           Contents,     \* subset of BOOLEAN: do tool-calling assistant messages carry text content?
@@ -68,7 +71,7 @@ UsedIn(script) == UNION {{script[j].calls[i].name : i \in 1..Len(script[j].calls
 ToolSeq(n) == [i \in 1..n |-> Pool[i]]
 
 Init == /\ pc = "script"
-        /\ sc \in [script : {<<>>}, rd : {<<>>}, maxstep : {0}, modifier : {FALSE}, checker : {"default"}, chunking : {"whole"}, content : Contents]
+        /\ sc \in [script : {<<>>}, rd : {<<>>}, maxstep : {0}, modifier : {FALSE}, inplace : {FALSE}, checker : {"default"}, chunking : {"whole"}, content : Contents]
         /\ cur = <<>> /\ run = 0 /\ st = <<>> /\ inp = <<>> /\ rdid = "" /\ step = 0 /\ k = 0 /\ chunks = <<>> /\ pend = {} /\ outs = <<>> /\ S = Idle
 
 --------------------------------------------------------------------------------
@@ -103,10 +106,10 @@ SeqOfSet(T) == LET RECURSIVE F(_, _)
                IN F(1, <<>>)
 RdSets == IF RdMode = "none" THEN {{}} ELSE SUBSET UsedIn(sc.script)
 CaseEv(c) == [ev |-> "case", id |-> "model", msgs |-> Orig, script |-> c.script, tools |-> ToolSeq(Max2(1, NUsed(c.script))), rd |-> c.rd,
-              maxstep |-> c.maxstep, modifier |-> c.modifier, checker |-> c.checker, chunking |-> c.chunking]
-Configure(rdset, ms, md, sty) ==
-  /\ pc = "script" /\ NM >= 1
-  /\ LET c == [sc EXCEPT !.rd = SeqOfSet(rdset), !.maxstep = ms, !.modifier = md, !.checker = CheckerOf(sty), !.chunking = ChunkingOf(sty)] IN
+              maxstep |-> c.maxstep, modifier |-> c.modifier, inplace |-> c.inplace, checker |-> c.checker, chunking |-> c.chunking]
+Configure(rdset, ms, md, ip, sty) ==
+  /\ pc = "script" /\ NM >= 1 /\ ~(md /\ ip)
+  /\ LET c == [sc EXCEPT !.rd = SeqOfSet(rdset), !.maxstep = ms, !.modifier = md, !.inplace = ip, !.checker = CheckerOf(sty), !.chunking = ChunkingOf(sty)] IN
        /\ sc' = c
        /\ S' = Apply(Idle, CaseEv(c))
   /\ pc' = "startrun" /\ run' = 0
@@ -152,9 +155,9 @@ Chat ==
   /\ IF step >= Limit
      THEN /\ S' = Finish2(S, ErrLimit) /\ pc' = "startrun" /\ UNCHANGED <<st, step, k, cur, chunks>>
      ELSE LET st1 == IF Bug = "noappend" THEN st ELSE st \o inp
-              minp == IF sc.modifier THEN <<SysMsg>> \o st1 ELSE st1
+              minp == IF sc.modifier THEN <<SysMsg>> \o st1 ELSE IF sc.inplace THEN Marked(st1) ELSE st1
               m == ScriptAt(sc, k + 1) IN
-          /\ st' = (IF Bug = "modleak" /\ sc.modifier THEN minp ELSE st1)
+          /\ st' = (IF (Bug = "modleak" /\ sc.modifier) \/ (Bug = "nocopy" /\ sc.inplace) THEN minp ELSE st1)
           /\ S' = Apply(S, [ev |-> "mcall", input |-> minp])
           /\ step' = step + 1 /\ k' = k + 1 /\ cur' = m /\ chunks' = ChunksOf(m) /\ pc' = "branch"
   /\ UNCHANGED <<sc, run, inp, rdid, pend, outs>>
@@ -208,7 +211,7 @@ Done == pc = "done" /\ ~Eager /\ UNCHANGED vars
 Next == \/ \E l \in CallLists(sc.script) : AddToolMsg(l)
         \/ AddFinalMsg
         \/ \E w \in Wide : AddWideMsg(w)
-        \/ \E rdset \in RdSets, ms \in MaxSteps, md \in Modifiers, sty \in Styles : Configure(rdset, ms, md, sty)
+        \/ \E rdset \in RdSets, ms \in MaxSteps, md \in Modifiers, ip \in Inplace, sty \in Styles : Configure(rdset, ms, md, ip, sty)
         \/ StartRun \/ AllDone \/ Chat \/ Branch \/ ToolsPre \/ (\E i \in pend : ToolRun(i)) \/ ToolsDone \/ Direct \/ Done
 Spec == Init /\ [][Next]_vars /\ WF_vars(Next)
 
@@ -218,6 +221,6 @@ Closed2 == pc = "done" => (~S.open /\ S.nruns = 2)
 Terminates == <>(pc = "done")       \* the agent stops for every script, looping scripts included
 
 Scenario == [msgs |-> Orig, script |-> sc.script, tools |-> ToolSeq(Max2(1, NUsed(sc.script))), rd |-> sc.rd, maxstep |-> sc.maxstep,
-             modifier |-> sc.modifier, checker |-> sc.checker, chunking |-> sc.chunking]
+             modifier |-> sc.modifier, inplace |-> sc.inplace, checker |-> sc.checker, chunking |-> sc.chunking]
 Emit == pc = "done" => PrintT(<<"CASE", ToJson(Scenario)>>)
 ================================================================================
